@@ -2,6 +2,7 @@
   C19: the lFile model (unbuffered writer) simulates the one-cursor Spec, operation by operation.
 -/
 import GLua.Proofs.IoFile
+import GLua.Proofs.IoScan
 
 namespace GLua.IoFile
 open GLua.FileSpec (Bytes Fmt Whence VBuf Mode Op Res Stream)
@@ -80,10 +81,6 @@ theorem stream_eq {f : LFile} (h : Inv f) : stream f = f.disk.drop (cursor f) :=
 
 /-! ### reads -/
 
-def toOut : Option Bytes → ReadOut
-  | none => .eof
-  | some d => .val d
-
 theorem lineOf_eq (S : Bytes) : lineOf S = S.takeWhile (· ≠ 10) := by
   unfold lineOf
   cases h : nlIndex S with
@@ -102,7 +99,8 @@ theorem lineLen_eq (S : Bytes) :
 
 /-- one format: the Model delivers what the Spec prescribes at the cursor, and the cursor moves alike. -/
 theorem readOne_sim {R : Nat} (hR : 0 < R) {f : LFile} (h : Readable f) (fm : Fmt)
-    (hcr : fm = .line → (13 : UInt8) ∉ f.disk) :
+    (hcr : fm = .line → (13 : UInt8) ∉ f.disk)
+    (hnum : fm = .num → numProved (f.disk.drop (cursor f)) = true) (hstr : ∀ s, fm ≠ .str s) :
     ∃ f' out, Reads f f' out ∧
       readOne R f fm = (f', toOut (FileSpec.readFmt f.disk (cursor f) fm).1) ∧
       (FileSpec.readFmt f.disk (cursor f) fm).2 = cursor f' := by
@@ -167,33 +165,119 @@ theorem readOne_sim {R : Nat} (hR : 0 < R) {f : LFile} (h : Readable f) (fm : Fm
     · simp only [readOne, he1, FileSpec.readFmt, ← hS, toOut]
     · simp only [FileSpec.readFmt]
       rw [hr1.cur, hS, List.length_drop]; omega
+  | num =>
+    have hg := hnum rfl
+    rw [← hS] at hg
+    obtain ⟨f1, o1, hr1, he1, hc1⟩ := fscanNumber_sim hR h hg
+    exact ⟨f1, o1, hr1, by simpa only [readOne] using he1, hc1⟩
+  | str s => exact absurd rfl (hstr s)
+
+/-- the formats whose reading is PROVED to agree with the Spec, walked as the Spec walks them: `count`, `*l`, `*a`
+    anywhere; `*n` on the texts of `numProved`; a format string that liolib rejects (other than the lone star:
+    open finding C19-read-lone-star).  Format strings spelling out "*l" / "*a" / "*n" are left to the engine, which
+    hands them over as `line` / `all` / `num`. -/
+def fmtsProved (b : Bytes) (cur : Nat) : List Fmt → Bool
+  | [] => true
+  | .str s :: _ => decide (FileSpec.classify (.str s) = .invalid) && decide (s ≠ [42])
+  | .num :: fs =>
+    numProved (b.drop cur) &&
+    (match FileSpec.readFmt b cur .num with
+     | (none, _) => true
+     | (some _, c) => fmtsProved b c fs)
+  | g :: fs =>
+    (match FileSpec.readFmt b cur g with
+     | (none, _) => true
+     | (some _, c) => fmtsProved b c fs)
+
+/-- an invalid format string (not the lone star) raises at once, whatever follows. -/
+theorem readLoop_invalid (R : Nat) (f : LFile) (s : Bytes) (rest : List Fmt)
+    (hi : FileSpec.classify (.str s) = .invalid) (hs : s ≠ [42]) :
+    readLoop R f (expandFmt (.str s) ++ rest) = (f, [], .raise) := by
+  match s with
+  | [] => simp [expandFmt, readLoop, readOne]
+  | [c] =>
+    by_cases hc : c = 42
+    · subst hc; exact absurd rfl hs
+    · simp [expandFmt, hc, readLoop, readOne]
+  | c :: c2 :: t =>
+    by_cases hc : c = 42
+    · subst hc
+      have h2 : c2 ≠ 110 ∧ c2 ≠ 108 ∧ c2 ≠ 97 := by
+        cases t with
+        | nil =>
+          simp only [FileSpec.classify] at hi
+          refine ⟨?_, ?_, ?_⟩ <;> intro h0 <;> simp [h0] at hi
+        | cons t1 t2 =>
+          simp only [FileSpec.classify] at hi
+          refine ⟨?_, ?_, ?_⟩ <;> intro h0 <;> simp [h0] at hi
+      simp [expandFmt, optFmt, h2.1, h2.2.1, h2.2.2, readLoop, readOne]
+    · simp [expandFmt, hc, readLoop, readOne]
+
+theorem classify_plain {g : Fmt} (h : ∀ s, g ≠ .str s) : FileSpec.classify g = .is g := by
+  cases g with
+  | str s => exact absurd rfl (h s)
+  | _ => rfl
+
+theorem expandFmt_plain {g : Fmt} (h : ∀ s, g ≠ .str s) : expandFmt g = [g] := by
+  cases g with
+  | str s => exact absurd rfl (h s)
+  | _ => rfl
 
 theorem readLoop_sim {R : Nat} (hR : 0 < R) :
     ∀ (fs : List Fmt) {f : LFile}, Readable f → (Fmt.line ∈ fs → (13 : UInt8) ∉ f.disk) →
+      fmtsProved f.disk (cursor f) fs = true →
       ∃ f' out, Reads f f' out ∧
-        readLoop R f fs = (f', (FileSpec.readFmts f.disk (cursor f) fs).1, false) ∧
-        (FileSpec.readFmts f.disk (cursor f) fs).2 = cursor f' := by
+        readLoop R f (fs.flatMap expandFmt) =
+          (f', (FileSpec.readFmts f.disk (cursor f) fs).1,
+           if (FileSpec.readFmts f.disk (cursor f) fs).2.2 then RStat.raise else RStat.done) ∧
+        (FileSpec.readFmts f.disk (cursor f) fs).2.1 = cursor f' := by
   intro fs
   induction fs with
-  | nil => intro f h _; exact ⟨f, [], Reads.refl h.inv, rfl, rfl⟩
+  | nil => intro f h _ _; exact ⟨f, [], Reads.refl h.inv, rfl, rfl⟩
   | cons fm fs ih =>
-    intro f h hcr
-    obtain ⟨f1, o1, hr1, he1, hc1⟩ := readOne_sim hR h fm (fun e => hcr (by simp [e]))
-    rcases hq : FileSpec.readFmt f.disk (cursor f) fm with ⟨v, c⟩
-    rw [hq] at he1 hc1
-    simp only at he1 hc1
-    cases v with
-    | none =>
-      refine ⟨f1, o1, hr1, ?_, ?_⟩
-      · simp [readLoop, he1, toOut, FileSpec.readFmts, hq]
-      · simp [FileSpec.readFmts, hq, hc1]
-    | some d =>
-      have hd : f1.disk = f.disk := hr1.frame.1
-      obtain ⟨f2, o2, hr2, he2, hc2⟩ := ih (h.of_reads hr1) (fun hm => by rw [hd]; exact hcr (by simp [hm]))
-      rw [hd, ← hc1] at he2 hc2
-      refine ⟨f2, o1 ++ o2, hr1.trans hr2, ?_, ?_⟩
-      · simp [readLoop, he1, toOut, FileSpec.readFmts, hq, he2]
-      · simp [FileSpec.readFmts, hq, hc2]
+    intro f h hcr hp
+    by_cases hstr : ∃ s, fm = .str s
+    · obtain ⟨s, rfl⟩ := hstr
+      simp only [fmtsProved, Bool.and_eq_true, decide_eq_true_eq] at hp
+      refine ⟨f, [], Reads.refl h.inv, ?_, ?_⟩
+      · rw [List.flatMap_cons, readLoop_invalid R f s _ hp.1 hp.2]
+        simp [FileSpec.readFmts, hp.1]
+      · simp [FileSpec.readFmts, hp.1]
+    · have hstr' : ∀ s, fm ≠ .str s := fun s e => hstr ⟨s, e⟩
+      have hnum : fm = .num → numProved (f.disk.drop (cursor f)) = true := by
+        intro e; subst e
+        simp only [fmtsProved, Bool.and_eq_true] at hp
+        exact hp.1
+      have hrest : match FileSpec.readFmt f.disk (cursor f) fm with
+          | (none, _) => True
+          | (some _, c) => fmtsProved f.disk c fs = true := by
+        cases fm with
+        | str s => exact absurd rfl (hstr' s)
+        | num =>
+          simp only [fmtsProved, Bool.and_eq_true] at hp
+          have := hp.2
+          split at this <;> simp_all
+        | count n => simp only [fmtsProved] at hp; split at hp <;> simp_all
+        | line => simp only [fmtsProved] at hp; split at hp <;> simp_all
+        | all => simp only [fmtsProved] at hp; split at hp <;> simp_all
+      obtain ⟨f1, o1, hr1, he1, hc1⟩ := readOne_sim hR h fm (fun e => hcr (by simp [e])) hnum hstr'
+      rcases hq : FileSpec.readFmt f.disk (cursor f) fm with ⟨v, c⟩
+      rw [hq] at he1 hc1 hrest
+      simp only at he1 hc1 hrest
+      rw [List.flatMap_cons, expandFmt_plain hstr', List.singleton_append]
+      cases v with
+      | none =>
+        refine ⟨f1, o1, hr1, ?_, ?_⟩
+        · simp [readLoop, he1, toOut, FileSpec.readFmts, classify_plain hstr', hq]
+        · simp [FileSpec.readFmts, classify_plain hstr', hq, hc1]
+      | some d =>
+        have hd : f1.disk = f.disk := hr1.frame.1
+        obtain ⟨f2, o2, hr2, he2, hc2⟩ := ih (h.of_reads hr1) (fun hm => by rw [hd]; exact hcr (by simp [hm]))
+          (by rw [hd, ← hc1]; exact hrest)
+        rw [hd, ← hc1] at he2 hc2
+        refine ⟨f2, o1 ++ o2, hr1.trans hr2, ?_, ?_⟩
+        · simp [readLoop, he1, toOut, FileSpec.readFmts, classify_plain hstr', hq, he2]
+        · simp [FileSpec.readFmts, classify_plain hstr', hq, hc2]
 
 /-! ### the simulation, operation by operation -/
 
@@ -314,8 +398,15 @@ theorem sim_wr {pend : Bool} {f : LFile} (h : Sim pend f) :
     | true => rfl
     | false => have := h.inv.wcap.mpr hq; rw [hw] at this; cases this
 
+/-- the operations whose result is PROVED to agree with the Spec in the state `s` (beyond the discipline, the
+    unbuffered writer and the CR guard): every read walks formats of `fmtsProved`. -/
+def opProved (s : Stream) : Op → Bool
+  | .read fs => s.closed || !s.canRead || fmtsProved s.bytes s.cur (if fs = [] then [.line] else fs)
+  | _ => true
+
 theorem read_sim {R : Nat} (hR : 0 < R) {pend : Bool} {f : LFile} (h : Sim pend f) (hc : f.closed = false)
-    (fs : List Fmt) (hcr : usesLine (.read fs) = true → (13 : UInt8) ∉ f.disk) :
+    (fs : List Fmt) (hcr : usesLine (.read fs) = true → (13 : UInt8) ∉ f.disk)
+    (hfp : opProved (absOf f) (.read fs) = true) :
     (fileReadAux R f fs).2 = (FileSpec.step (absOf f) (.read fs)).2 ∧
     (FileSpec.step (absOf f) (.read fs)).1 = absOf (fileReadAux R f fs).1 ∧
     Sim true (fileReadAux R f fs).1 := by
@@ -326,11 +417,14 @@ theorem read_sim {R : Nat} (hR : 0 < R) {pend : Bool} {f : LFile} (h : Sim pend 
       by_cases he : fs = []
       · simp [usesLine, he]
       · simp only [he, if_false] at hm; simp [usesLine, hm]
-    obtain ⟨f', out, hrd, he, hcur⟩ := readLoop_sim hR (if fs = [] then [Fmt.line] else fs) (sim_readable h hc hr) hcr'
+    have hfp' : fmtsProved f.disk (cursor f) (if fs = [] then [Fmt.line] else fs) = true := by
+      simpa [opProved, absOf, hc, hr] using hfp
+    obtain ⟨f', out, hrd, he, hcur⟩ := readLoop_sim hR (if fs = [] then [Fmt.line] else fs) (sim_readable h hc hr) hcr' hfp'
     have hcan : (absOf f).canRead = true := hr
-    have hm : fileReadAux R f fs = (f', .vals (FileSpec.readFmts f.disk (cursor f) (if fs = [] then [Fmt.line] else fs)).1) := by
+    have hm : fileReadAux R f fs = (f', if (FileSpec.readFmts f.disk (cursor f) (if fs = [] then [Fmt.line] else fs)).2.2 then .raise
+        else .vals (FileSpec.readFmts f.disk (cursor f) (if fs = [] then [Fmt.line] else fs)).1) := by
       simp only [fileReadAux, hc, hr, flushWriter_unbuf h.unbuf, he]
-      simp
+      by_cases hx : (FileSpec.readFmts f.disk (cursor f) (if fs = [] then [Fmt.line] else fs)).2.2 = true <;> simp [hx]
     rw [hm]
     refine ⟨?_, ?_, sim_of_reads h hc hrd⟩
     · simp [FileSpec.step, absOf, hc, hr]
@@ -384,7 +478,7 @@ theorem iter_sim {R : Nat} (hR : 0 < R) {pend : Bool} {f : LFile} (h : Sim pend 
     (FileSpec.step (absOf f) .iter).1 = absOf (fileLinesIter R f).1 ∧
     Sim true (fileLinesIter R f).1 := by
   by_cases hr : f.hasReader = true
-  · obtain ⟨f', out, hrd, he, hcur⟩ := readOne_sim hR (sim_readable h hc hr) .line (fun _ => hcr)
+  · obtain ⟨f', out, hrd, he, hcur⟩ := readOne_sim hR (sim_readable h hc hr) .line (fun _ => hcr) (fun e => by cases e) (fun s e => by cases e)
     simp only [readOne] at he
     rcases hq : FileSpec.readFmt f.disk (cursor f) .line with ⟨v, c⟩
     rw [hq] at he hcur
@@ -521,7 +615,8 @@ theorem step_sim {R : Nat} (hR : 0 < R) {pend : Bool} {f : LFile} (h : Sim pend 
     (hw : ∀ s, op = .write s → pend = false)
     (hro : ∀ m, op = .reopen m → f.closed = true)
     (hnb : isBuffering op = false)
-    (hcr : usesLine op = true → (13 : UInt8) ∉ f.disk) :
+    (hcr : usesLine op = true → (13 : UInt8) ∉ f.disk)
+    (hfp : opProved (absOf f) op = true) :
     (step R f op).2 = (FileSpec.step (absOf f) op).2 ∧
     (FileSpec.step (absOf f) op).1 = absOf (step R f op).1 ∧
     Sim (pendNext pend op) (step R f op).1 := by
@@ -539,7 +634,7 @@ theorem step_sim {R : Nat} (hR : 0 < R) {pend : Bool} {f : LFile} (h : Sim pend 
       | write s =>
         have hp := hw s rfl; subst hp
         simpa [step, pendNext] using write_sim h hc' s
-      | read fs => simpa [step, pendNext, FileSpec.isInput] using read_sim hR h hc' fs hcr
+      | read fs => simpa [step, pendNext, FileSpec.isInput] using read_sim hR h hc' fs hcr hfp
       | lines => simpa [step, pendNext, FileSpec.isInput, FileSpec.isSeparator] using lines_sim h hc'
       | iter => simpa [step, pendNext, FileSpec.isInput] using iter_sim hR h hc' (hcr rfl)
       | seek w d => simpa [step, pendNext, FileSpec.isInput, FileSpec.isSeparator] using seek_sim h hc' w d
@@ -553,6 +648,46 @@ theorem step_sim {R : Nat} (hR : 0 < R) {pend : Bool} {f : LFile} (h : Sim pend 
       | reopen m => exact absurd rfl (hre' m)
 
 /-! ### whole histories -/
+
+/-- the formats of the original vocabulary: count, `*l`, `*a` -/
+def isPlainFmt : Fmt → Bool
+  | .count _ | .line | .all => true
+  | _ => false
+
+def plainOp : Op → Bool
+  | .read fs => fs.all isPlainFmt
+  | _ => true
+
+/-- no `*n`, no format given as a raw string (those are covered by the state-dependent guard `opProved`, see
+    `wrun_sim`) -/
+def plainReads (ops : List Op) : Prop := ∀ o ∈ ops, plainOp o = true
+
+instance (ops : List Op) : Decidable (plainReads ops) := by unfold plainReads; infer_instance
+
+theorem fmtsProved_plain (b : Bytes) : ∀ (fs : List Fmt) (cur : Nat), fs.all isPlainFmt = true → fmtsProved b cur fs = true := by
+  intro fs
+  induction fs with
+  | nil => intro _ _; rfl
+  | cons g fs ih =>
+    intro cur h
+    simp only [List.all_cons, Bool.and_eq_true] at h
+    cases g with
+    | num => simp [isPlainFmt] at h
+    | str s => simp [isPlainFmt] at h
+    | count n => simp only [fmtsProved]; split <;> simp_all
+    | line => simp only [fmtsProved]; split <;> simp_all
+    | all => simp only [fmtsProved]; split <;> simp_all
+
+theorem opProved_plain (s : Stream) {o : Op} (h : plainOp o = true) : opProved s o = true := by
+  cases o with
+  | read fs =>
+    simp only [plainOp] at h
+    simp only [opProved, Bool.or_eq_true]
+    refine Or.inr (fmtsProved_plain _ _ _ ?_)
+    by_cases he : fs = []
+    · simp [he, isPlainFmt]
+    · simpa [he] using h
+  | _ => rfl
 
 def noBuffering (ops : List Op) : Prop := ∀ o ∈ ops, isBuffering o = false
 
@@ -647,20 +782,22 @@ theorem lineSafe_cons {s : Stream} {o : Op} {os : List Op} (h : lineSafe s.bytes
 theorem run_sim {R : Nat} (hR : 0 < R) :
     ∀ (ops : List Op) {pend : Bool} {f : LFile}, Sim pend f →
       FileSpec.disc pend ops = true → FileSpec.reopenOk f.closed ops = true →
-      noBuffering ops → lineSafe f.disk ops →
+      noBuffering ops → lineSafe f.disk ops → plainReads ops →
       (run R f ops).2 = (FileSpec.run (absOf f) ops).2 ∧
       absOf (run R f ops).1 = (FileSpec.run (absOf f) ops).1 := by
   intro ops
   induction ops with
-  | nil => intro pend f _ _ _ _ _; exact ⟨rfl, rfl⟩
+  | nil => intro pend f _ _ _ _ _ _; exact ⟨rfl, rfl⟩
   | cons o os ih =>
-    intro pend f h hd hro hnb hls
+    intro pend f h hd hro hnb hls hpl
     obtain ⟨hw, hd'⟩ := disc_cons hd
     obtain ⟨hro1, hro'⟩ := reopenOk_cons (s := absOf f) hro
     obtain ⟨hcr, hls'⟩ := lineSafe_cons (s := absOf f) hls
     obtain ⟨hres, habs, hsim⟩ := step_sim hR h o hw hro1 (hnb o (List.mem_cons_self ..)) hcr
+      (opProved_plain _ (hpl o (List.mem_cons_self ..)))
     rw [habs] at hro' hls'
     obtain ⟨ih1, ih2⟩ := ih hsim hd' hro' (fun o' ho' => hnb o' (List.mem_cons_of_mem _ ho')) hls'
+      (fun o' ho' => hpl o' (List.mem_cons_of_mem _ ho'))
     simp only [run, FileSpec.run]
     rw [habs]
     exact ⟨by rw [hres, ih1], ih2⟩
